@@ -1,40 +1,68 @@
-//! pie_run --scenarios FILE --out TRACE.ndjson : executes scenarios (JSON lines) against the real library.
+//! pie_run gen --family F --n N --seed S --out SCENARIOS.jsonl [--max-t 5 --max-r 4 --max-len 3 --steps 5]
+//! pie_run run --scenarios FILE --out TRACE.ndjson [--repeat K]
+//!   executes scenarios (JSON lines) against the real library; with --repeat K each scenario is executed K times
+//!   on fresh instances and the K traces are written to TRACE.ndjson, TRACE.ndjson.2, ... (determinism check).
+use std::collections::HashMap;
 use std::io::{BufRead, BufReader, Write};
 
+use pie_verif_harness::gen::{generate, GenCfg};
 use pie_verif_harness::model::Scenario;
 use pie_verif_harness::run::run_scenario;
 
 fn main() {
   let args: Vec<String> = std::env::args().collect();
-  let mut scen = None;
-  let mut out = None;
-  let mut i = 1;
-  while i < args.len() {
-    match args[i].as_str() {
-      "--scenarios" => { scen = Some(args[i + 1].clone()); i += 2; }
-      "--out" => { out = Some(args[i + 1].clone()); i += 2; }
-      a => { eprintln!("unknown argument {}", a); std::process::exit(2); }
+  if args.len() < 2 { eprintln!("usage: pie_run gen|run ..."); std::process::exit(2); }
+  let mut opt: HashMap<String, String> = HashMap::new();
+  let mut i = 2;
+  while i + 1 < args.len() { opt.insert(args[i].trim_start_matches("--").to_string(), args[i + 1].clone()); i += 2; }
+  let get = |k: &str, d: &str| opt.get(k).cloned().unwrap_or_else(|| d.to_string());
+  match args[1].as_str() {
+    "gen" => {
+      let cfg = GenCfg {
+        family: get("family", "WF"),
+        max_t: get("max-t", "5").parse().unwrap(),
+        max_r: get("max-r", "4").parse().unwrap(),
+        max_len: get("max-len", "3").parse().unwrap(),
+        steps: get("steps", "5").parse().unwrap(),
+      };
+      let n: usize = get("n", "10").parse().unwrap();
+      let seed: u64 = get("seed", "1").parse().unwrap();
+      let mut w = std::io::BufWriter::new(std::fs::File::create(get("out", "scenarios.jsonl")).expect("create out"));
+      for idx in 0..n {
+        let s = generate(seed, idx, &cfg);
+        w.write_all(serde_json::to_string(&s).unwrap().as_bytes()).unwrap();
+        w.write_all(b"\n").unwrap();
+      }
+      w.flush().unwrap();
     }
+    "run" => {
+      let scen = get("scenarios", "");
+      let out = get("out", "");
+      let repeat: usize = get("repeat", "1").parse().unwrap();
+      std::panic::set_hook(Box::new(|_| {}));
+      let f = BufReader::new(std::fs::File::open(&scen).expect("open scenarios"));
+      let mut ws: Vec<_> = (0..repeat).map(|k| {
+        let p = if k == 0 { out.clone() } else { format!("{}.{}", out, k + 1) };
+        std::io::BufWriter::new(std::fs::File::create(p).expect("create out"))
+      }).collect();
+      let (mut n, mut events) = (0usize, 0usize);
+      for line in f.lines() {
+        let line = line.expect("read");
+        if line.trim().is_empty() { continue; }
+        let scn: Scenario = match serde_json::from_str(&line) {
+          Ok(s) => s,
+          Err(e) => { eprintln!("bad scenario: {}", e); std::process::exit(2); }
+        };
+        for w in ws.iter_mut() {
+          let lines = run_scenario(&scn);
+          events += lines.len();
+          for l in lines { w.write_all(l.as_bytes()).unwrap(); w.write_all(b"\n").unwrap(); }
+        }
+        n += 1;
+      }
+      for w in ws.iter_mut() { w.flush().unwrap(); }
+      eprintln!("pie_run: {} scenarios x {}, {} events -> {}", n, repeat, events, out);
+    }
+    other => { eprintln!("unknown command {}", other); std::process::exit(2); }
   }
-  let scen = scen.expect("--scenarios");
-  let out = out.expect("--out");
-  std::panic::set_hook(Box::new(|_| {}));
-  let f = BufReader::new(std::fs::File::open(&scen).expect("open scenarios"));
-  let mut w = std::io::BufWriter::new(std::fs::File::create(&out).expect("create out"));
-  let mut n = 0usize;
-  let mut events = 0usize;
-  for line in f.lines() {
-    let line = line.expect("read");
-    if line.trim().is_empty() { continue; }
-    let scn: Scenario = match serde_json::from_str(&line) {
-      Ok(s) => s,
-      Err(e) => { eprintln!("bad scenario: {}", e); std::process::exit(2); }
-    };
-    let lines = run_scenario(&scn);
-    events += lines.len();
-    for l in lines { w.write_all(l.as_bytes()).unwrap(); w.write_all(b"\n").unwrap(); }
-    n += 1;
-  }
-  w.flush().unwrap();
-  eprintln!("pie_run: {} scenarios, {} events -> {}", n, events, out);
 }
